@@ -490,6 +490,10 @@ struct SProbe : cocls::stack_storage {
 
 struct Cmd { enum K { none, create, complete, quit } k = none; int c = 0; int f = 0; };
 
+// bytes behind every alloca block handed to a stack_storage (the stack grows downwards: they are allocated first):
+// larger than any frame, so that whatever a broken policy writes behind the block lands here and is reported
+constexpr std::size_t GUARD = 2048;
+
 alignas(64) static unsigned char g_emergency[16][arena::SLOTSZ];    // where frames go whose memory is unusable
 
 template <Pol P, bool EX>
@@ -980,7 +984,7 @@ struct World {
                 if (ok && (fits || r.orig)) for (std::size_t k = 0; k < r.n; k++) ok &= r.buf[k] == pat(r.id, k);
                 if (!ok) bad.push("canary:" + std::to_string(r.id));
             } else bad.push("not-started:" + std::to_string(r.id));
-            if (r.guard) for (int k = 0; k < 64; k++) if (r.guard[k] != 0xE7) { bad.push("alloca-guard:" + std::to_string(r.id)); break; }
+            if (r.guard) for (int k = 0; k < (int) GUARD; k++) if (r.guard[k] != 0xE7) { bad.push("alloca-guard:" + std::to_string(r.id)); break; }
         }
         // exclusivity on raw addresses
         for (int i = 0; i < nframes; i++) for (int j = i + 1; j < nframes; j++) {
@@ -1115,8 +1119,8 @@ struct World {
                     // the storage is constructed from the shared state and given the block it asks for, now; used later
                     A &sst = new_stack_storage();
                     cocls::stack_storage &base = sst;
-                    unsigned char *guard = static_cast<unsigned char *>(alloca(64));
-                    memset(guard, 0xE7, 64);
+                    unsigned char *guard = static_cast<unsigned char *>(alloca(GUARD));
+                    memset(guard, 0xE7, GUARD);
                     std::size_t asz = base;
                     unsigned char *ab = static_cast<unsigned char *>(alloca(asz));
                     memset(ab, 0x5A, asz);
@@ -1156,8 +1160,8 @@ struct World {
                     FrameRef &ref = new_ref(0, c, 1);
                     A &sst = new_stack_storage();
                     cocls::stack_storage &base = sst;
-                    unsigned char *guard = static_cast<unsigned char *>(alloca(64));
-                    memset(guard, 0xE7, 64);
+                    unsigned char *guard = static_cast<unsigned char *>(alloca(GUARD));
+                    memset(guard, 0xE7, GUARD);
                     std::size_t asz = base;                                  // operator std::size_t
                     unsigned char *ab = static_cast<unsigned char *>(alloca(asz));
                     memset(ab, 0x5A, asz);
